@@ -79,6 +79,9 @@ func NewCtx(p *Prog, property, tier string, findings []Finding) *Ctx {
 }
 
 func (c *Ctx) add(rule, construct, pos, verdict, detail string) {
+	if os.Getenv("SA_DUMP") != "" {
+		fmt.Fprintf(os.Stderr, "OBL %s | %s | %s | %s | %s\n", rule, verdict, construct, pos, detail)
+	}
 	if c.rename != nil {
 		nr, ok := c.rename(rule)
 		if !ok {
